@@ -4,8 +4,9 @@
    specification: Spec/XsdPrims.v (written from XSD 1.1 part 2, imports no table). *)
 From Coq Require Import NArith ZArith List Bool Sorting.Permutation Sorting.Sorted.
 From XV Require Import Base.Str Base.Dec Base.PyInt Gen.ConvTables
-  Model.ConvBool Model.ConvInt Model.ConvBytes Model.ConvFactory Model.ConvGuards Spec.XsdPrims
-  Proofs.ConvBool Proofs.ConvInt Proofs.ConvBytes Proofs.ConvFactory.
+  Model.ConvBool Model.ConvInt Model.ConvBytes Model.ConvDecimal Model.ConvQName Model.ConvFloat
+  Model.ConvFactory Model.ConvGuards Spec.XsdPrims
+  Proofs.ConvBool Proofs.ConvInt Proofs.ConvBytes Proofs.ConvDecimal Proofs.ConvQName Proofs.ConvFloat Proofs.ConvFactory.
 Import ListNotations.
 
 (* ======================= bool <-> xs:boolean ======================= *)
@@ -100,6 +101,141 @@ Theorem C05_base64_accepts_xsd : forall s v,
   xsd_base64Binary s = Some v -> bytes_deser (Some bytes_fmt_base64) s = Some v.
 Proof. exact b64_accepts_xsd. Qed.
 Print Assumptions C05_base64_accepts_xsd.
+
+(* ======================= Decimal <-> xs:decimal ========================= *)
+(* full statement false of the faithful model: non-finite Decimals serialize to
+   'INF' / 'NaN', which no xs:decimal spelling produces *)
+Theorem C05_decimal_ser_valid_refuted :
+  exists dv, forall d, wf_decimal d = true -> lex_decimal d <> dec_ser dv.
+Proof. exact dec_ser_valid_refuted. Qed.
+Print Assumptions C05_decimal_ser_valid_refuted.
+
+(* guard dec_finite: the value is DFin neg c e *)
+Theorem C05_decimal_ser_valid : forall neg c e,
+  exists d, wf_decimal d = true /\ lex_decimal d = dec_ser (DFin neg c e)
+            /\ decnum_eq (val_decimal d) (mk_decnum neg c e) = true.
+Proof. exact dec_ser_valid. Qed.
+Print Assumptions C05_decimal_ser_valid.
+
+Theorem C05_decimal_accepts_xsd : forall d a b,
+  wf_decimal d = true -> dec_sp_fits d = true ->
+  forallb xml_ws a = true -> forallb xml_ws b = true ->
+  dec_deser (a ++ lex_decimal d ++ b)
+  = Some (let v := val_decimal d in DFin (dn_neg v) (dn_coeff v) (dn_exp v)).
+Proof. exact dec_accepts_xsd. Qed.
+Print Assumptions C05_decimal_accepts_xsd.
+
+(* the value read back: a positive exponent is spent on trailing zeros (same
+   number, as Python's ==); otherwise coefficient and exponent are preserved *)
+Theorem C05_decimal_roundtrip : forall neg c e,
+  dec_fits (fst (dec_norm c e)) (snd (dec_norm c e)) = true ->
+  dec_deser (dec_ser (DFin neg c e)) = Some (DFin neg (fst (dec_norm c e)) (snd (dec_norm c e))).
+Proof. exact dec_roundtrip. Qed.
+Print Assumptions C05_decimal_roundtrip.
+
+Theorem C05_decimal_roundtrip_same_number : forall neg c e,
+  decnum_eq (mk_decnum neg (fst (dec_norm c e)) (snd (dec_norm c e))) (mk_decnum neg c e) = true.
+Proof. exact dec_norm_value. Qed.
+Print Assumptions C05_decimal_roundtrip_same_number.
+
+Theorem C05_decimal_roundtrip_exact : forall neg c e,
+  (e <= 0)%Z -> dec_fits c e = true -> dec_deser (dec_ser (DFin neg c e)) = Some (DFin neg c e).
+Proof. exact dec_roundtrip_exact. Qed.
+Print Assumptions C05_decimal_roundtrip_exact.
+
+Example C05_decimal_guard_nonvacuous :
+  dec_deser (dec_ser (DFin true 12345 (-3))) = Some (DFin true 12345 (-3))
+  /\ dec_ser (DFin true 12345 (-3)) = [45;49;50;46;51;52;53]%N
+  /\ dec_deser (dec_ser (DFin false 15 2)) = Some (DFin false 1500 0).
+Proof. exact dec_guard_nonvacuous. Qed.
+Print Assumptions C05_decimal_guard_nonvacuous.
+
+(* ======================= QName <-> xs:QName ============================== *)
+(* full acceptance is false: is_ncname rejects NCNames with combining marks *)
+Theorem C05_qname_accepts_xsd_refuted :
+  exists q env v, wf_qname q = true /\ val_qname env q = Some v /\ qname_deser (lex_qname q) (Some env) = None.
+Proof. exact qname_accepts_xsd_refuted. Qed.
+Print Assumptions C05_qname_accepts_xsd_refuted.
+
+Theorem C05_qname_accepts_xsd : forall q env a b v,
+  wf_qname q = true -> val_qname env q = Some v -> qname_sp_py_guard q = true ->
+  forallb xml_ws a = true -> forallb xml_ws b = true ->
+  qname_deser (a ++ lex_qname q ++ b) (Some env) = Some (expanded_name v).
+Proof. exact qname_accepts_xsd. Qed.
+Print Assumptions C05_qname_accepts_xsd.
+
+Example C05_qname_accepts_guard_nonvacuous :
+  let q := mk_qname_sp (Some [112; 45; 113]%N) [233; 116; 233; 46; 49; 95]%N in
+  wf_qname q = true /\ qname_sp_py_guard q = true
+  /\ qname_deser ([32; 10] ++ lex_qname q ++ [9])%N (Some [(Some [112; 45; 113], [117;114;110;58;97])]%N)
+     = Some ([123;117;114;110;58;97;125] ++ [233; 116; 233; 46; 49; 95])%N.
+Proof. exact qname_accepts_guard_nonvacuous. Qed.
+Print Assumptions C05_qname_accepts_guard_nonvacuous.
+
+(* full round trip is false: one witness per guard clause *)
+Theorem C05_qname_roundtrip_clark_refuted :
+  exists u local, is_ncname local = true /\
+    forall s m', qname_ser (qname_text (Some u) local) None = Some (s, m') -> qname_deser s m' = None.
+Proof. exact qname_roundtrip_clark_refuted. Qed.
+Print Assumptions C05_qname_roundtrip_clark_refuted.
+
+Theorem C05_qname_roundtrip_default_refuted :
+  exists local m, is_ncname local = true /\ wf_nsmap m = true /\
+    exists s m', qname_ser (qname_text None local) (Some m) = Some (s, m')
+                 /\ qname_deser s m' <> Some (qname_text None local).
+Proof. exact qname_roundtrip_default_refuted. Qed.
+Print Assumptions C05_qname_roundtrip_default_refuted.
+
+Theorem C05_qname_roundtrip : forall uri local m,
+  qname_rt_guard uri local m = true ->
+  exists s m', qname_ser (qname_text uri local) m = Some (s, m')
+               /\ qname_deser s m' = Some (qname_text uri local).
+Proof. exact qname_roundtrip. Qed.
+Print Assumptions C05_qname_roundtrip.
+
+Example C05_qname_roundtrip_guard_nonvacuous :
+  qname_rt_guard (Some [117;114;110;58;97]%N) [233;46;98]%N
+    (Some [(None, [117;114;110;58;100]); (Some [112], [117;114;110;58;98])]%N) = true
+  /\ qname_rt_guard (Some [117;114;110;58;97]%N) [120]%N None = true
+  /\ qname_rt_guard None [120]%N (Some [(Some [112], [117;114;110;58;98])]%N) = true.
+Proof. exact qname_roundtrip_guard_nonvacuous. Qed.
+Print Assumptions C05_qname_roundtrip_guard_nonvacuous.
+
+(* ======================= float <-> xs:double ============================== *)
+(* for every (F, fclass_of, frepr, fround) satisfying the hypotheses CPythonFloat
+   about repr() and float(); the hypotheses are sampled by the check *)
+Theorem C05_float_roundtrip : forall F fclass_of frepr fround,
+  CPythonFloat F fclass_of frepr fround -> forall x,
+  match fclass_of x with
+  | FcNaN => exists y, float_deser F fround (float_ser F fclass_of frepr x) = Some y /\ fclass_of y = FcNaN
+  | _ => float_deser F fround (float_ser F fclass_of frepr x) = Some x
+  end.
+Proof. exact float_roundtrip. Qed.
+Print Assumptions C05_float_roundtrip.
+
+Theorem C05_float_ser_valid : forall F fclass_of frepr fround,
+  CPythonFloat F fclass_of frepr fround -> forall x,
+  exists d, wf_double d = true /\ lex_double d = float_ser F fclass_of frepr x
+            /\ match fclass_of x with
+               | FcNaN => d = DbNaN
+               | _ => fround (fsyn_of d) = x
+               end.
+Proof. exact float_ser_valid. Qed.
+Print Assumptions C05_float_ser_valid.
+
+Theorem C05_float_accepts_xsd : forall F (fround : fsyn -> F) d a b,
+  wf_double d = true -> forallb xml_ws a = true -> forallb xml_ws b = true ->
+  float_deser F fround (a ++ lex_double d ++ b) = Some (fround (fsyn_of d)).
+Proof. exact float_accepts_xsd. Qed.
+Print Assumptions C05_float_accepts_xsd.
+
+(* the text side without any hypothesis: float() reads every xs:double literal
+   as the number it denotes *)
+Theorem C05_float_syntax_accepts_xsd : forall d a b,
+  wf_double d = true -> forallb xml_ws a = true -> forallb xml_ws b = true ->
+  float_syntax (a ++ lex_double d ++ b) = Some (fsyn_of d).
+Proof. exact float_syntax_spelled. Qed.
+Print Assumptions C05_float_syntax_accepts_xsd.
 
 (* ======================= str =========================================== *)
 Theorem C05_string_roundtrip : forall s, string_deser (string_ser s) = Some s.
